@@ -7,9 +7,17 @@ Mirrors, branch by branch and in the code's order,
     xyz_reader            (CP2K  *.xyz)
     lammpstrj_reader      (LAMMPS dump custom `id type x y z vx vy vz id`)
 
-File content is a `List Char` (ASCII text, one char = one byte, so the opaque text-mode `tell()`
-cookie is the byte offset).  Not modelled: universal-newline translation of '\r' (the content is
-assumed free of '\r'), non-ASCII whitespace, `int()`/`float()` literals outside
+File content is the *byte* sequence of the file; each byte is carried as a `Char` with code < 256 (the
+driver builds the content from hex bytes this way), so positions and `tell()` are byte offsets — which
+is what the text-mode `tell()` cookie of a UTF-8 file is whenever the decoder has nothing pending, i.e.
+behind every complete line.  The only structural byte is '\n' (0x0A); blanks are the ASCII blanks.
+UTF-8 lead and continuation bytes are ≥ 0x80, hence never '\n' and never a blank
+(`Lemmas.nonascii_not_structural`): multi-byte characters in the free-text places (comment line, atom
+names, header texts) are ordinary bytes of the model, whole or cut in the middle (the code opens the
+file with errors="surrogateescape", so a partly written character decodes to a non-blank surrogate).
+Not modelled: universal-newline translation of '\r' (the content is assumed free of '\r'), non-ASCII
+*Unicode* whitespace (U+0085, U+00A0, U+2000…, U+3000 — `str.split()` would split there), locales whose
+encoding is not UTF-8, `int()`/`float()` literals outside
 `[+-]digits` / `[+-](d+[.d*]|.d+)([eE][+-]d+)` (no "inf", "nan", "1_0").
 Numbers are never evaluated: frames are returned as the *tokens* that would be handed to `float`.
 
@@ -380,5 +388,99 @@ def trrTick (frames : List TFrame) (size : Nat) (st : TSt) : TSt × List TEv :=
 def trrRun (frames : List TFrame) : List Nat → TSt → List TEv
   | [], _ => []
   | s :: ss, st => (trrTick frames s st).2 ++ trrRun frames ss (trrTick frames s st).1
+
+/-! ### TRR: `read_trr_header` at byte level (gromacs.py ~980–1026, `is_double` ~1188)
+
+Bytes are `Nat`s < 256.  Mirrors: magic read big-endian, otherwise byte-swapped and the byte order flipped
+(a wrong magic both ways is only logged!); two ints `slen`; a string of `slen[0] - 1` bytes compared up to
+its first NUL with "GMX_trn_file"; 13 ints; precision from the first non-zero of box/x/v/f size; two
+reals (time, lambda — skipped here).  Error kinds: EOFError (`read` returned nothing, also for a 0-byte
+request), struct.error (short buffer, negative string length), ValueError, ZeroDivisionError. -/
+
+inductive TErr where
+  | eof | struct | value | zerodiv
+  deriving DecidableEq, Repr
+
+structure THeader where
+  little : Bool
+  double : Bool
+  ints : List Int      -- ir e box vir pres top sym x v f natoms step nre
+  hlen : Nat           -- bytes consumed = what get_gromacs_frames adds to bytes_read / stores as header_size
+  deriving DecidableEq, Repr
+
+/-- `fileh.read(n)` followed by `if not buff: raise EOFError` and `struct.unpack` -/
+def readN (bs : List Nat) (n : Nat) : Except TErr (List Nat × List Nat) :=
+  if n = 0 ∨ bs.isEmpty then .error .eof
+  else if bs.length < n then .error .struct
+  else .ok (bs.take n, bs.drop n)
+
+def u32be : List Nat → Nat
+  | [a, b, c, d] => a * 16777216 + b * 65536 + c * 256 + d
+  | _ => 0
+
+def u32 (little : Bool) (b : List Nat) : Nat := if little then u32be b.reverse else u32be b
+
+def s32 (little : Bool) (b : List Nat) : Int :=
+  if u32 little b < 2147483648 then (u32 little b : Int) else (u32 little b : Int) - 4294967296
+
+def ints32 (little : Bool) : Nat → List Nat → List Int
+  | 0, _ => []
+  | n + 1, bs => s32 little (bs.take 4) :: ints32 little n (bs.drop 4)
+
+def trrVersion : List Nat := [71, 77, 88, 95, 116, 114, 110, 95, 102, 105, 108, 101]   -- "GMX_trn_file"
+
+/-- `is_double(header)`; `int(a / b)` is truncating division for these magnitudes -/
+def isDouble (ints : List Int) : Except TErr Bool :=
+  let box := ints.getD 2 0
+  let x := ints.getD 7 0
+  let v := ints.getD 8 0
+  let f := ints.getD 9 0
+  let natoms := ints.getD 10 0
+  let size : Except TErr Int :=
+    if box ≠ 0 then .ok (Int.tdiv box 9)
+    else if x ≠ 0 then (if natoms * 3 = 0 then .error .zerodiv else .ok (Int.tdiv x (natoms * 3)))
+    else if v ≠ 0 then (if natoms * 3 = 0 then .error .zerodiv else .ok (Int.tdiv v (natoms * 3)))
+    else if f ≠ 0 then (if natoms * 3 = 0 then .error .zerodiv else .ok (Int.tdiv f (natoms * 3)))
+    else .ok 0
+  match size with
+  | .error e => .error e
+  | .ok s => if s = 4 then .ok false else if s = 8 then .ok true else .error .value
+
+/-- `sum(header[key] for key in TRR_DATA_ITEMS)`: box vir pres x v f -/
+def dataSize (ints : List Int) : Int :=
+  ints.getD 2 0 + ints.getD 3 0 + ints.getD 4 0 + ints.getD 7 0 + ints.getD 8 0 + ints.getD 9 0
+
+def trrHeader (bs : List Nat) : Except TErr (THeader × List Nat) :=
+  match readN bs 4 with
+  | .error e => .error e
+  | .ok (m, r1) =>
+    let little := !(s32 false m == 1993)          -- a wrong magic both ways only logs, then goes on as '<'
+    match readN r1 8 with
+    | .error e => .error e
+    | .ok (sl, r2) =>
+      let slen0 := s32 little (sl.take 4)
+      if slen0 - 1 < 0 then .error .struct           -- "-1s": bad char in struct format
+      else
+        match readN r2 (slen0 - 1).toNat with
+        | .error e => .error e
+        | .ok (raw, r3) =>
+          if raw.takeWhile (· ≠ 0) ≠ trrVersion then .error .value
+          else
+            match readN r3 52 with
+            | .error e => .error e
+            | .ok (hb, r4) =>
+              let ints := ints32 little 13 hb
+              match isDouble ints with
+              | .error e => .error e
+              | .ok dbl =>
+                let fs := if dbl then 8 else 4
+                match readN r4 (2 * fs) with
+                | .error e => .error e
+                | .ok (_, r5) =>
+                  .ok ({ little := little, double := dbl, ints := ints,
+                         hlen := 4 + 8 + (slen0 - 1).toNat + 52 + 2 * fs }, r5)
+
+/-- the frame sizes the guard machine works with, read off the header bytes -/
+def THeader.frame (h : THeader) : TFrame := ⟨h.hlen, (dataSize h.ints).toNat⟩
 
 end Infretis.Readers
